@@ -1,5 +1,6 @@
 import SafeNet.Proofs.ValidateData
 import SafeNet.Proofs.ValidateWorld
+import SafeNet.Model.AddrDerive
 /-!
 # C04 — every accepted record's address is derived from its own content or owner
 
@@ -154,6 +155,42 @@ example : storePut 200 200 (some .chunk) .none = (.tooLarge, false) := by decide
 example : storePut 200 10 (some .chunk) .chunk = (.ok, false) := by decide
 example : storePut 200 10 (some .chunkp) .chunk = (.ok, true) := by decide
 
+/-! ## The derivations themselves (`Model/AddrDerive`, content hash = SHA3-256 as defined in `Base/Sha3`;
+tied to the real address types by component `addrderive`) -/
+section Derive
+open SafeNet.AddrDerive
+
+/-- Every derived record key is a 32-byte SHA3-256 digest of exactly the bytes the property names: the chunk's bytes,
+the owner key (scratchpad, transaction), the label followed by the owner key (register). -/
+theorem derived_keys_are_content_hashes (value owner label : List Nat) :
+    recordKey (chunkName value) = SafeNet.Sha3.hashBytes value ∧
+    recordKey (scratchpadName owner) = SafeNet.Sha3.hashBytes owner ∧
+    recordKey (transactionName owner) = SafeNet.Sha3.hashBytes owner ∧
+    recordKey (registerName label owner) = SafeNet.Sha3.hashBytes (label ++ owner) ∧
+    (recordKey (chunkName value)).length = 32 ∧ (recordKey (registerName label owner)).length = 32 :=
+  ⟨rfl, rfl, rfl, rfl, SafeNet.Sha3.hashBytes_length _, SafeNet.Sha3.hashBytes_length _⟩
+
+/-- If SHA3-256 does not collide on the inputs in question, a key determines what may be stored under it: two chunks
+under one key have equal bytes, two registers under one key have equal label and owner (labels are 32 bytes), two
+scratchpads / transaction sets under one key have the same owner. -/
+theorem key_determines_content
+    (hinj : ∀ x y, SafeNet.Sha3.hashBytes x = SafeNet.Sha3.hashBytes y → x = y) :
+    (∀ v v', recordKey (chunkName v) = recordKey (chunkName v') → v = v') ∧
+    (∀ o o', recordKey (scratchpadName o) = recordKey (scratchpadName o') → o = o') ∧
+    (∀ o o', recordKey (transactionName o) = recordKey (transactionName o') → o = o') ∧
+    (∀ l o l' o', l.length = 32 → l'.length = 32 →
+      recordKey (registerName l o) = recordKey (registerName l' o') → l = l' ∧ o = o') := by
+  refine ⟨fun v v' h => hinj _ _ h, fun o o' h => hinj _ _ h, fun o o' h => hinj _ _ h, ?_⟩
+  intro l o l' o' hl hl' h
+  exact List.append_inj (hinj _ _ h) (by rw [hl, hl'])
+
+/-- Observed on the code (not a violation of the statement): a scratchpad and a transaction set of one owner are
+addressed by the same key; a register of that owner is not (given collision-freedom, a 32-byte label in front). -/
+theorem scratchpad_and_transactions_share_a_key (owner : List Nat) :
+    recordKey (scratchpadName owner) = recordKey (transactionName owner) := rfl
+
+end Derive
+
 end SafeNet.Props.C04
 
 #print axioms SafeNet.Props.C04.stored_key_is_derived
@@ -163,3 +200,6 @@ end SafeNet.Props.C04
 #print axioms SafeNet.Props.C04.addresses_recomputed
 #print axioms SafeNet.Props.C04.any_schedule_keys_derived
 #print axioms SafeNet.Props.C04.any_schedule_foreign_key_untouched
+#print axioms SafeNet.Props.C04.derived_keys_are_content_hashes
+#print axioms SafeNet.Props.C04.key_determines_content
+#print axioms SafeNet.Props.C04.scratchpad_and_transactions_share_a_key
